@@ -15,6 +15,7 @@ import DelbDriver.Document
 import DelbDriver.Gc
 import DelbDriver.Wrapping
 import DelbDriver.Codec
+import DelbDriver.Scan
 open Lean DelbDriver
 
 def dispatch (j : Json) : Except String Json := do
@@ -42,6 +43,7 @@ def dispatch (j : Json) : Except String Json := do
   | "reduce_content" => handleReduceContent j
   | "encode" => handleEncode j
   | "decode" => handleDecode j
+  | "scan" => handleScan j
   | _ => throw s!"unknown cmd {cmd}"
 
 partial def loop (h : IO.FS.Stream) (out : IO.FS.Stream) : IO Unit := do
